@@ -212,6 +212,7 @@ func TestC14(t *testing.T) {
 	setRapidChecks(pick(5, 50))
 	opts := behaviouralOpts()
 	opts.AliasHeavy = true
+	opts.TemplateAlias = true // aliases named like the packages the generated code imports itself
 	opts.Todo = false
 	opts.FailCtor = false
 	opts.Scopes = false
